@@ -325,11 +325,18 @@ func init() {
 		return fmtOutcome(sp)
 	}
 	opTable["canon"] = func(s *Session, a []string) string {
-		out, err := symmetry.Canonical(atoi(a[0]), parseMoves(a[1:]))
+		// the input travels in ONE reused backing array (a caller's history slice after take-backs, a reused buffer):
+		// what Canonical was given earlier is overwritten by now, and both the input and the result belong to the caller
+		in := canonInput(s, parseMoves(a[1:]))
+		out, err := symmetry.Canonical(atoi(a[0]), in)
 		if err != nil {
+			scribbleMoves(in)
 			return "err"
 		}
-		return encMoves(out)
+		res := encMoves(out)
+		scribbleMoves(out)
+		scribbleMoves(in)
+		return res
 	}
 	opTable["scanon"] = opTable["canon"] // second opinion: the list-level algorithm of the Lean side against the real code
 	opTable["canonchk"] = func(s *Session, a []string) string {
@@ -454,3 +461,22 @@ func init() {
 type fixedPlayer struct{ m tak.Move }
 
 func (f fixedPlayer) GetMove(ctx context.Context, p *tak.Position) tak.Move { return f.m }
+
+// canonInput copies ms into the session's reused input array (grown, never shrunk) and returns that window of it
+func canonInput(s *Session, ms []tak.Move) []tak.Move {
+	buf, _ := s.slots["canon-input"].([]tak.Move)
+	if cap(buf) < len(ms) {
+		nb := make([]tak.Move, 0, 2*len(ms)+16)
+		buf = nb
+	}
+	buf = buf[:len(ms)]
+	copy(buf, ms)
+	s.slots["canon-input"] = buf
+	return buf
+}
+
+func scribbleMoves(ms []tak.Move) {
+	for i := range ms {
+		ms[i] = tak.Move{X: -7, Y: -7, Type: 99, Slides: 0xABCDEF}
+	}
+}
